@@ -935,3 +935,40 @@ def check_determinism_full(prop, tier, repo, verif):
     res['wall_s'] = round(time.time() - t0, 1)
     res['checker_cmd'] = 'tools/detprobe (built against the current tree)'
     return res
+
+
+def check_context_model(prop, tier, repo, verif):
+    t0 = time.time()
+    count = 12000 if tier == 'thorough' else 3000
+    seed = '20260923'     # fixed: the sub-agent validated the generator against the unchanged code for this seed (and 1, 2, 3)
+    res = {'unit': 'bounded:context_model', 'engine': 'bounded run of the real assembler + processor against a reference model of contexts and memory written from execution_contexts.md / io_operations.md (tools/ctxprobe, release build with debug assertions)', 'status': 'ok',
+           'failures': [], 'undecided': [], 'bounded': True,
+           'bound': '4 directed scenarios + %d generated programs (seed %s): 0-3 kernel and 1-6 user procedures with 0-3 locals, exec / call / syscall / procref+dyncall / procref+dynexec nested, callers made deeper than 16 by extra pushes, 0-25 stack inputs, element / word / stream / pipe / local loads and stores over a 19-address pool around 0, 2^30, 2^31, 2^32-1, sdepth, caller in kernel procedures, deliberately failing programs (unbalanced callee, address >= 2^32, exhausted advice); success / failure kind and the complete final stack incl. a dump of root memory are compared' % (count, seed)}
+    binp, err = build_tool(repo, verif, 'ctxprobe', release=True)
+    if binp is None:
+        res['status'] = 'undecided'
+        res['undecided'].append('ctxprobe does not build against the current tree: ' + err)
+        return res
+    p = subprocess.run([binp, '--seed', seed, '--count', str(count)], stdout=subprocess.PIPE, stderr=subprocess.PIPE, text=True)
+    m = re.search(r'SUMMARY checked=(\d+) mismatches=(\d+)', p.stdout)
+    if not m:
+        res['status'] = 'undecided'
+        res['undecided'].append('ctxprobe gave no summary (panic?): ' + (p.stdout + p.stderr)[-500:])
+        return res
+    n = 0
+    for ln in p.stdout.split('\n'):
+        if not ln.startswith('FAILCASE '):
+            continue
+        n += 1
+        text = ln[len('FAILCASE '):]
+        kind = 'directed' if text.startswith('directed') else 'generated'
+        if any(f['obligation'].endswith('#' + kind) for f in res['failures']):
+            continue
+        res['failures'].append({'obligation': '%s/bounded/context_model#%s' % (prop, kind), 'message': 'context / memory model mismatch (%s program)' % kind,
+                                'rendered': text[:2000], 'origins': ['processor/src/stack/mod.rs', 'processor/src/system/mod.rs', 'processor/src/chiplets/memory', 'processor/src/lib.rs', 'assembly/src/assembler'],
+                                'failing_input': {'case': text[:1400], 'cmd': '.cache/target/release/ctxprobe --seed %s --count %d' % (seed, count)}})
+    if res['failures']:
+        res['status'] = 'fail'
+    res['wall_s'] = round(time.time() - t0, 1)
+    res['checker_cmd'] = 'tools/ctxprobe --seed %s --count %d (built against the current tree): %s programs' % (seed, count, m.group(1))
+    return res
